@@ -87,8 +87,8 @@ func (r *runner) wants(what string) bool {
 
 func (r *runner) exchange(t Target, c Case, in Input) Observed {
 	r.s.About(c.Label, describe(t, c, in))
+	op := t.ModelOp(in) // before the exchange: it carries the state the server is in when the input arrives
 	o := t.Exchange(in)
-	op := t.ModelOp(in)
 	op["c"] = r.f.Comp + "." + op["k"].(string)
 	delete(op, "k")
 	nontrivial := len(o.Messages()) > 0 || (o.Status != nil && *o.Status >= 400)
@@ -492,6 +492,13 @@ const goodBody = `{"jsonrpc":"2.0","id":"good","method":"tools/call","params":{"
 
 func (r *runner) surviveOn(t Target, cs []Case) {
 	kind := t.Kind()
+	t0 := time.Now()
+	lap := func(what string) {
+		if os.Getenv("VERIF_RPC_TIMING") != "" {
+			fmt.Fprintf(os.Stderr, "timing %s %s: %v\n", t.Name(), what, time.Since(t0))
+		}
+	}
+	defer lap("done")
 	base := LibGoroutines()
 	goodIn, _ := deliver(t, []byte(goodBody))
 	ref := t.Exchange(goodIn)
@@ -524,11 +531,14 @@ func (r *runner) surviveOn(t Target, cs []Case) {
 			check(c.Label)
 		}
 	}
+	lap("cases")
 	r.httpCases(t)
 	check("http-level cases")
+	lap("http")
 	if st, ok := t.(*streamable); ok {
 		r.rawTCP(st)
 		check("raw TCP garbage")
+		lap("rawtcp")
 	}
 	// census after quiescence
 	waitQuiet(5 * time.Second)
@@ -570,9 +580,7 @@ func (r *runner) rawTCP(t *streamable) {
 		}
 		conn.SetDeadline(time.Now().Add(3 * time.Second))
 		conn.Write([]byte(rq))
-		if i == 2 {
-			conn.(*net.TCPConn).CloseWrite() // the announced body never comes
-		}
+		conn.(*net.TCPConn).CloseWrite() // nothing more will come: the server sees the end of the input right away
 		io.Copy(io.Discard, io.LimitReader(conn, 1<<16))
 		conn.Close()
 		r.s.Count(fmt.Sprintf("rawtcp:%s:%d", t.Name(), i), true, nil, "raw-tcp")
